@@ -161,6 +161,8 @@ TEnd ==
   /\ viol' = viol
        \cup (IF E.ok /\ ~E.pruned /\ fin > 0 /\ lastf.t > 0 /\ lastf.f # lastf.t THEN {V("after a successful build the status line of the last command does not show finished = total")} ELSE {})
        \cup (IF held # <<>> \/ locked THEN {V("output held back for a console command was never written")} ELSE {})
+       \* C19: the listing of a dry run is complete (droppable progress lines are a matter of real console commands)
+       \cup (IF E.dry /\ E.unlisted # <<>> THEN {[V("the listing of a dry run lacks a command the dry run went through") EXCEPT !.p = "C19"]} ELSE {})
        \cup (IF \E r \in finished : r.out /\ <<"out", r.s>> \notin shown THEN {V("the output of a finished command was never shown")} ELSE {})
   /\ UNCHANGED <<meta, locked, held, shown, fin, lastf, started, finished, acc, stats>> /\ Step
 
